@@ -185,6 +185,9 @@ class _Canon(ast.NodeTransformer):
 
     def visit_Compare(self, n):
         self.generic_visit(n)
+        if len(n.ops) == 1 and isinstance(n.ops[0], (ast.In, ast.NotIn)) and isinstance(n.comparators[0], ast.List) and isinstance(n.comparators[0].ctx, ast.Load):
+            n.comparators[0] = ast.copy_location(ast.Tuple(elts=n.comparators[0].elts, ctx=ast.Load()), n.comparators[0])
+            self.count += 1
         if len(n.ops) == 1 and type(n.ops[0]) in _FLIP and isinstance(n.left, ast.Constant) and not isinstance(n.comparators[0], ast.Constant):
             n.left, n.comparators[0] = n.comparators[0], n.left
             n.ops[0] = _FLIP[type(n.ops[0])]()
@@ -269,6 +272,134 @@ def canonicalise(tree):
     return c.count
 
 
+def _ends(stmts):
+    if not stmts:
+        return False
+    last = stmts[-1]
+    if isinstance(last, (ast.Return, ast.Raise, ast.Continue, ast.Break)):
+        return True
+    if isinstance(last, ast.If) and last.orelse:
+        return _ends(last.body) and _ends(last.orelse)
+    return False
+
+
+def _append_loop(a, b):
+    """(target name, element, generator parts) if `a; b` is `x = []` followed by `for v in IT: [if c:] x.append(E)`."""
+    if not (isinstance(a, ast.Assign) and len(a.targets) == 1 and isinstance(a.targets[0], ast.Name) and isinstance(a.value, ast.List) and not a.value.elts):
+        return None
+    if not (isinstance(b, ast.For) and not b.orelse and isinstance(b.target, ast.Name) and len(b.body) == 1):
+        return None
+    x = a.targets[0].id
+    st, conds = b.body[0], []
+    if isinstance(st, ast.If) and not st.orelse and len(st.body) == 1:
+        conds, st = [st.test], st.body[0]
+    if not (isinstance(st, ast.Expr) and isinstance(st.value, ast.Call) and isinstance(st.value.func, ast.Attribute) and st.value.func.attr == "append"
+            and isinstance(st.value.func.value, ast.Name) and st.value.func.value.id == x and len(st.value.args) == 1 and not st.value.keywords):
+        return None
+    elt = st.value.args[0]
+    if any(isinstance(n, ast.Name) and n.id == x for e in [elt, b.iter] + conds for n in ast.walk(e)):
+        return None
+    return x, elt, b.target, b.iter, conds
+
+
+def _shape_facts(fn):
+    """Which of two interchangeable spellings the reference uses, per test / target (for reference-relative reshaping)."""
+    f = {"else_tests": set(), "noelse_tests": set(), "ifexp_targets": set(), "ifstmt_targets": set(), "comp_targets": set(), "loop_targets": set()}
+    for n in ast.walk(fn):
+        if isinstance(n, ast.If) and _ends(n.body):
+            f["else_tests" if n.orelse else "noelse_tests"].add(ast.unparse(n.test))
+        if isinstance(n, ast.Assign) and len(n.targets) == 1 and isinstance(n.value, ast.IfExp):
+            f["ifexp_targets"].add(ast.unparse(n.targets[0]))
+        if isinstance(n, ast.If) and len(n.body) == 1 and len(n.orelse) == 1 and all(isinstance(x, ast.Assign) and len(x.targets) == 1 for x in (n.body[0], n.orelse[0])) \
+                and ast.dump(n.body[0].targets[0]) == ast.dump(n.orelse[0].targets[0]):
+            f["ifstmt_targets"].add(ast.unparse(n.body[0].targets[0]))
+        if isinstance(n, ast.Assign) and len(n.targets) == 1 and isinstance(n.targets[0], ast.Name) and isinstance(n.value, ast.ListComp) and len(n.value.generators) == 1:
+            f["comp_targets"].add(n.targets[0].id)
+        for fld in ("body", "orelse", "finalbody"):
+            blk = getattr(n, fld, None)
+            if isinstance(blk, list):
+                for a, b in zip(blk, blk[1:]):
+                    if isinstance(a, ast.stmt) and _append_loop(a, b):
+                        f["loop_targets"].add(a.targets[0].id)
+    return {k: sorted(v) for k, v in f.items()}
+
+
+def _reshape(fn, ref):
+    """Read four interchangeable spellings the way the reference function spells them (each rewrite is an identity):
+    else after a terminating if-body <-> following statements; conditional expression assignment <-> if/else
+    assigning the same target; list comprehension <-> append loop."""
+    if not ref:
+        return 0
+    R = {k: set(v) for k, v in ref.items()}
+    count = 0
+    changed = True
+    while changed:
+        changed = False
+        for owner in ast.walk(fn):
+            for fld in ("body", "orelse", "finalbody"):
+                blk = getattr(owner, fld, None)
+                if not isinstance(blk, list) or not blk or not isinstance(blk[0], ast.stmt):
+                    continue
+                for i, n in enumerate(blk):
+                    if isinstance(n, ast.If) and _ends(n.body):
+                        t = ast.unparse(n.test)
+                        if n.orelse and t in R["noelse_tests"] and t not in R["else_tests"]:
+                            rest, n.orelse = n.orelse, []
+                            blk[i + 1:i + 1] = rest
+                            changed = True
+                        elif not n.orelse and blk[i + 1:] and t in R["else_tests"] and t not in R["noelse_tests"]:
+                            n.orelse = blk[i + 1:]
+                            del blk[i + 1:]
+                            changed = True
+                    if not changed and isinstance(n, ast.Assign) and len(n.targets) == 1 and isinstance(n.value, ast.IfExp):
+                        t = ast.unparse(n.targets[0])
+                        if t in R["ifstmt_targets"] and t not in R["ifexp_targets"] and is_pure(_loadify(clone(n.targets[0]))):
+                            blk[i] = ast.copy_location(ast.If(test=n.value.test, body=[ast.Assign(targets=[clone(n.targets[0])], value=n.value.body)],
+                                                              orelse=[ast.Assign(targets=[clone(n.targets[0])], value=n.value.orelse)]), n)
+                            changed = True
+                    if not changed and isinstance(n, ast.If) and len(n.body) == 1 and len(n.orelse) == 1 \
+                            and all(isinstance(x, ast.Assign) and len(x.targets) == 1 for x in (n.body[0], n.orelse[0])) \
+                            and ast.dump(n.body[0].targets[0]) == ast.dump(n.orelse[0].targets[0]):
+                        t = ast.unparse(n.body[0].targets[0])
+                        if t in R["ifexp_targets"] and t not in R["ifstmt_targets"] and is_pure(_loadify(clone(n.body[0].targets[0]))):
+                            blk[i] = ast.copy_location(ast.Assign(targets=[n.body[0].targets[0]], value=ast.IfExp(test=n.test, body=n.body[0].value, orelse=n.orelse[0].value)), n)
+                            changed = True
+                    if not changed and i + 1 < len(blk):
+                        al = _append_loop(n, blk[i + 1])
+                        if al and al[0] in R["comp_targets"] and al[0] not in R["loop_targets"]:
+                            x, elt, tgt, it, conds = al
+                            later = any(isinstance(m, ast.Name) and m.id == tgt.id for s_ in blk[i + 2:] for m in ast.walk(s_))
+                            if not later:
+                                blk[i:i + 2] = [ast.copy_location(ast.Assign(targets=[ast.Name(id=x, ctx=ast.Store())],
+                                                                             value=ast.ListComp(elt=elt, generators=[ast.comprehension(target=tgt, iter=it, ifs=conds, is_async=0)])), n)]
+                                changed = True
+                    if not changed and isinstance(n, ast.Assign) and len(n.targets) == 1 and isinstance(n.targets[0], ast.Name) and isinstance(n.value, ast.ListComp) \
+                            and len(n.value.generators) == 1 and not n.value.generators[0].is_async and isinstance(n.value.generators[0].target, ast.Name):
+                        x = n.targets[0].id
+                        g = n.value.generators[0]
+                        if x in R["loop_targets"] and x not in R["comp_targets"] and not any(isinstance(m, ast.Name) and m.id == x for m in ast.walk(n.value)) \
+                                and not any(isinstance(m, ast.Name) and m.id == g.target.id for s_ in blk[i + 1:] for m in ast.walk(s_)) \
+                                and not any(isinstance(m, ast.Name) and m.id == g.target.id for s_ in blk[:i] for m in ast.walk(s_)):
+                            body = [ast.Expr(value=ast.Call(func=ast.Attribute(value=ast.Name(id=x, ctx=ast.Load()), attr="append", ctx=ast.Load()), args=[n.value.elt], keywords=[]))]
+                            for c in reversed(g.ifs):
+                                body = [ast.If(test=c, body=body, orelse=[])]
+                            blk[i:i + 1] = [ast.copy_location(ast.Assign(targets=[ast.Name(id=x, ctx=ast.Store())], value=ast.List(elts=[], ctx=ast.Load())), n),
+                                            ast.copy_location(ast.For(target=g.target, iter=g.iter, body=body, orelse=[]), n)]
+                            changed = True
+                    if changed:
+                        count += 1
+                        break
+                if changed:
+                    break
+            if changed:
+                break
+        if count > 40:
+            break
+    if count:
+        ast.fix_missing_locations(fn)
+    return count
+
+
 def _test_texts(fn):
     """Texts of the branch tests and of the comparisons of a function (for reference-relative polarity/orientation)."""
     tests, cmps = [], []
@@ -298,7 +429,7 @@ def inventory_of_tree(tree):
                 b = bound_names(st, d)
                 tt, cc = _test_texts(st)
                 inv["functions"][q] = {"params": [n for n, k in b if k == "param"], "locals": [[n, k] for n, k in b if k != "param"],
-                                       "defs": {n: d[n] for n, k in b if k != "param" and n in d}, "tests": tt, "compares": cc}
+                                       "defs": {n: d[n] for n, k in b if k != "param" and n in d}, "tests": tt, "compares": cc, "shapes": _shape_facts(st)}
                 rec(st, q + ".")
             elif isinstance(st, ast.ClassDef):
                 inv["functions"].setdefault("class:" + prefix + st.name, {"params": [], "locals": [[s.targets[0].id, "attr"] for s in st.body if isinstance(s, ast.Assign) and isinstance(s.targets[0], ast.Name)]})
@@ -540,6 +671,9 @@ class ModuleNormaliser:
                 k = _orient(fn, set(ref["tests"]), set(ref["compares"]))
                 if k:
                     self.log.append(f"{q}: {k} branch polarity / comparison orientation(s) read as in the reference")
+                k = _reshape(fn, ref.get("shapes"))
+                if k:
+                    self.log.append(f"{q}: {k} statement shape(s) (else after return, conditional expression, comprehension) read as in the reference")
         consts = self.new_constants()
         # 1. constants
         if consts:
@@ -584,6 +718,12 @@ class ModuleNormaliser:
                 self._rename_back(q, fn)
                 self._propagate_temporaries(q, fn)
                 self._rename_back(q, fn)
+        for q, (fn, owner, cls) in list(self.defs.items()):
+            ref = self.inv.get("functions", {}).get(q)
+            if ref and ref.get("shapes"):
+                k = _reshape(fn, ref["shapes"])
+                if k:
+                    self.log.append(f"{q}: {k} statement shape(s) read as in the reference (after inlining)")
         _fix(self.tree)
         return self
 
@@ -1068,7 +1208,7 @@ class ModuleNormaliser:
             if blk is not None and blk.index(st) + 1 < len(blk):
                 nx = blk[blk.index(st) + 1]
                 whole = (isinstance(nx, ast.If) and nx.test is uses[0]) or (isinstance(nx, (ast.Return, ast.Expr)) and nx.value is uses[0]) \
-                    or (isinstance(nx, ast.Assign) and nx.value is uses[0] and all(isinstance(t, ast.Name) for t in nx.targets))
+                    or (isinstance(nx, ast.Assign) and nx.value is uses[0] and all(isinstance(t, ast.Name) or is_pure(_loadify(clone(t))) for t in nx.targets))
         if not whole and (not calls or any(isinstance(x, (ast.Lambda, ast.ListComp, ast.SetComp, ast.DictComp, ast.GeneratorExp, ast.NamedExpr, ast.Await, ast.Yield, ast.YieldFrom))
                                            for x in ast.walk(st.value))):
             return False
